@@ -66,6 +66,11 @@ let () =
         o.(0) = string_of_int dg.count && o.(1) = u64s dg.xor && o.(2) = u64s dg.sum && o.(3) = "1"
         && o.(4) = lst dg.first && o.(5) = lst dg.last && (o.(7) = "+" || o.(7) = lst (Stdlib.List.rev dg.full)) in
       if not same then fails := Specfail ("c06_hands_enum", Printf.sprintf "expected %d hands (xor %s), increasing, each once" dg.count (u64s dg.xor)) :: !fails;
+      (* the size the iterator announces is the binomial coefficient (judged where at least k cards are free: with
+         fewer free cards nothing is yielded, which is what the property asks; the announcement there is 1 or an
+         arithmetic abort -- noted in DESIGN.md, not claimed as a violation of the statement about yielded hands) *)
+      if free >= k && k >= 1 && o.(6) <> string_of_n binom then
+        fails := Specfail ("c06_announced_size_is_binomial", Printf.sprintf "size_hint says %s, C(%d,%d) = %s" o.(6) free k (string_of_n binom)) :: !fails;
       if string_of_n binom <> string_of_int dg.count then fails := Mismatch "spec count <> binomial (driver bug)" :: !fails
     end;
     !fails)
@@ -85,6 +90,7 @@ let () =
       spec "c06_obs_count" (o.(0) = want) ("expected " ^ want);
       spec "c06_obs_count_published" (o.(0) = gen_tab (GenStreet.coq_N_OBSERVATIONS_STD, GenStreet.coq_N_OBSERVATIONS_SHORT) d s) "differs from Street::n_observations";
       spec "c06_obs_each_once" (o.(2) = "1") "not strictly increasing in (pocket, board)";
+      spec "c06_obs_announced_size" (o.(1) = want) ("combinations() says " ^ o.(1) ^ ", expected " ^ want);
       let bs = string_of_n (SpecCombs.burnside d (nat_of_int (street_b s))) in
       spec "c06_iso_count_burnside" (o.(3) = bs) ("canonical observations " ^ o.(3) ^ ", Burnside " ^ bs);
       spec "c06_iso_count_published" (o.(3) = gen_tab (GenStreet.coq_N_ISOMORPHISMS_STD, GenStreet.coq_N_ISOMORPHISMS_SHORT) d s) "differs from Street::n_isomorphisms";
